@@ -8,6 +8,13 @@
 #include <unordered_map>
 #include <vector>
 
+#ifdef CAPPUCCINO_VERIF_HOOKS
+namespace cappuccino_verif
+{
+struct access;
+} // namespace cappuccino_verif
+#endif
+
 namespace cappuccino
 {
 /**
@@ -327,6 +334,11 @@ private:
             do_erase(m_mru_list.back());
         }
     }
+
+#ifdef CAPPUCCINO_VERIF_HOOKS
+    /// Verification harness access to the private structure (structural correspondence tier).
+    friend struct ::cappuccino_verif::access;
+#endif
 
     /// Cache lock for all mutations if thread_safe is enabled.
     mutable mutex<thread_safe_type> m_lock;
